@@ -4,7 +4,7 @@ CONSTANTS
     MAXV = 3
     MAXF = 3
     HLEN = 24
-    FOCUS = "any"
+    FOCUS = "ops"
     PALETTE = "full"
 SPECIFICATION Spec
 INVARIANTS TypeOK
